@@ -20,7 +20,7 @@ EXPLANATION = (
     "a subscript read is safe if the key is must-defined there, or the read's guard contains the guard of a write / an explicit presence test. "
     "R3 return-rank agreement of the log record routine (all return paths yield a rank-0 value). R4 every key stored by the result builder is "
     "in the allowed-key list. R5 a finiteness test with fallback assignment stands between the GP prediction at the incumbent and its use as "
-    "target. Numeric crashes (division by zero, NaN rounding, singular matrices outside fit) are out of static reach and not claimed."
+    "target. R6 shape consistency of the GP refit retry: rows dropped from X and Y are dropped from the noise vector through the same mask, exactly once (shared with C16-R2). Numeric crashes (division by zero, NaN rounding, singular matrices outside fit) are out of static reach and not claimed."
 )
 
 # keys whose subscript reads are safe for a reason the must-definition analysis cannot see; each entry carries a
@@ -502,6 +502,11 @@ def check(ctx):
             ctx.fail(fn, preds[0], f"the GP prediction {mu} at the incumbent is used as optimisation target with no finiteness test / fallback", construct="<missing non-finite fallback>")
     if not found:
         ctx.missing("pybads/bads/bads.py", "target-from-GP routine (predict at the incumbent, returns mean / sd / target)")
+    # ------------------------------------------------------------------ R6
+    from .c16 import fit_calls, retry_consistency
+
+    fit_fns = [f for f in prog.functions() if fit_calls(prog, f)]
+    retry_consistency(ctx, prog, fit_fns, rule_id="R6")
     ctx.assume("numeric crash classes (division by zero, round(nan), singular matrices outside fit) are not decided")
     ctx.assume("dict.get reads and reads through local aliases of sub-dicts are not subscript reads of optim_state")
 
